@@ -293,6 +293,8 @@ def rules(chk, db):
             ok = e.get('k') == 'idx' and ir.strip_all_casts(e['b']).get('k') == 'mem' and \
                 ir.strip_all_casts(e['i']).get('id') == f['params'][0]['id']
             chk.decide(ok, 'W', where, 'BlockReader::operator[](i) returns data[i]', function=ir.fn_label(f))
+    from .. import copyrules
+    copyrules.check(chk, db, 'CP', {'nop::BlockReader'}, minimum=2, text='BlockReader copies / assignments carry both the data pointer and the size (readers are passed by value and may be re-seated)')
     # X: no divergence
     bad = []
     for f in sip:
